@@ -531,6 +531,8 @@ def r8_parents(ctx):
     shapes = [("single", lambda p: si(2, 9, "PLUS", p), lambda p: si(5, 12, "PLUS", p)),
               ("compound", lambda p: ci([(1, 4), (6, 10)], "PLUS", p), lambda p: ci([(3, 7), (9, 14)], "PLUS", p)),
               ("compound x single", lambda p: ci([(1, 4), (6, 10)], "PLUS", p), lambda p: si(3, 8, "PLUS", p))]
+    mkb_minus = {"single": lambda p: si(5, 12, "MINUS", p), "compound": lambda p: ci([(3, 7), (9, 14)], "MINUS", p),
+                 "compound x single": lambda p: si(3, 8, "MINUS", p)}
     for na, pa in systems.items():
         for nb, pb in systems.items():
             same = na == nb
@@ -567,6 +569,32 @@ def r8_parents(ctx):
                                 f"{op} strict across systems ({shape})",
                                 f"{shape}: a on [{na}], b on [{nb}]: a.{op}(b, strict_parent_compare=True) -> {k}:{v if k == 'raise' else ''}; "
                                 f"documented MismatchedParentException", f)
+                        # two things wrong at once: the operands also differ in strand and strands must match - the parent refusal stays
+                        n += 1
+                        b_minus = mkb_minus[shape](pb())
+                        k, v = run(it, f, [b_minus], {"strict_parent_compare": True, "match_strand": True}, a)
+                        r.check(k == "raise" and v in ("MismatchedParentException", "NullParentException"), "C02.R8", f.qual,
+                                f"{op} strict across systems, strands differ too ({shape})",
+                                f"{shape}: a on [{na}] (+), b on [{nb}] (-): a.{op}(b, match_strand=True, strict_parent_compare=True) -> {k}:"
+                                f"{v if k == 'raise' else 'answers'}; documented MismatchedParentException (the strand mismatch does not excuse the parent mismatch)", f)
+            # the empty location as argument of a located receiver: nothing is shared, whatever the flags
+            for shape, mka, _mkb in shapes[:2]:
+                a = mka(pa())
+                A = positions(a)
+                for op, kw in (("has_overlap", {}), ("has_overlap", {"match_strand": True}), ("has_overlap", {"full_span": True}),
+                               ("intersection", {}), ("intersection", {"match_strand": False}), ("minus", {}), ("minus", {"match_strand": False})):
+                    n += 1
+                    f = repo.fn(f"{LOC}:{a.cls_name}.{op}")
+                    k, v = run(it, f, [it.empty], dict(kw), a)
+                    if op == "has_overlap":
+                        ok = k == "ok" and v is False
+                    elif op == "intersection":
+                        ok = k == "ok" and is_empty_obj(v)
+                    else:
+                        ok = k == "ok" and not is_empty_obj(v) and positions(v) == A
+                    r.check(ok, "C02.R8", f.qual, f"{op}(EmptyLocation{', ' + str(kw) if kw else ''}) on a located receiver ({shape})",
+                            f"{shape} on [{na}]: a.{op}(EmptyLocation(), {kw}) -> {k}:{_describe(v) if k == 'ok' and isinstance(v, Obj) else v}; "
+                            f"the empty location shares nothing", f)
     r.floor("C02.R8", "located operand evaluations", n, 800)
 
 
